@@ -1,9 +1,10 @@
 package main
 
-// IpfixIR (C03 / C09): the functions of ipfix/decoder.go translated, statement by statement, from the Go AST into the
-// IR of lean/Vflow/Model/IpfixIR.lean (expressions, assignments, if / for / range / break / return, the type switch on
-// nonfatalError, calls).  The Lean side interprets the IR with Go's semantics and Props/C03, Props/C09 prove, for every
-// state and argument, that each translated function IS the function of the hand-written model.
+// IpfixIR, V9IR (C03 / C06 / C09): the functions of ipfix/decoder.go and of netflow/v9/decoder.go (two profiles of one
+// translator) translated, statement by statement, from the Go AST into the IR of lean/Vflow/Model/IpfixIR.lean
+// (expressions, assignments, if / for / range / break / return, the type switch on nonfatalError, calls).  The Lean side
+// interprets the IR with Go's semantics and Props/C03, C06, C09 prove, for every state and argument, that each translated
+// function IS the function of the hand-written model (Vflow.Ipfix / Vflow.V9).
 //
 // What the translation does (everything else is left to the interpreter):
 //   * locals are numbered: receiver / parameters first, then every declaration in source order.  Which declaration an
